@@ -27,17 +27,88 @@ use crate::{
 // destination.  Under Kani the Message built by the real code is inspected in the stub and
 // then leaked: running the drop glue of Message/Submessage/Bytes symbolically cost more
 // than the handler under test (measured 440 s vs 118 s).
+/// One emitted ACKNACK, flattened to scalars (no heap: cloning a NumberSet whose length is
+/// symbolic is a symbolic-size allocation).  Windows in these harnesses are < 64 wide, so
+/// two bitmap words are enough; `words_len` records the real bitmap length.
+#[derive(Clone, Copy)]
+pub(crate) struct AckRec {
+  pub writer_id: EntityId,
+  pub reader_id: EntityId,
+  pub base: i64,
+  pub num_bits: u32,
+  pub words_len: usize,
+  pub w0: u32,
+  pub w1: u32,
+  pub count: i32,
+}
+impl AckRec {
+  pub fn of(a: &AckNack) -> Self {
+    let (num_bits, words_len, w0, w1) =
+      crate::structure::sequence_number::verif_harness_seqnum::ns_parts(&a.reader_sn_state);
+    AckRec {
+      writer_id: a.writer_id,
+      reader_id: a.reader_id,
+      base: i64::from(a.reader_sn_state.base()),
+      num_bits,
+      words_len,
+      w0,
+      w1,
+      count: a.count,
+    }
+  }
+  /// is SN base+off requested (bit set and inside num_bits)?
+  pub fn requests(&self, off: i64) -> bool {
+    if off < 0 || off >= self.num_bits as i64 || off >= 64 {
+      return false;
+    }
+    let w = if off < 32 { self.w0 } else { self.w1 };
+    w & (1u32 << (31 - (off % 32) as u32)) != 0
+  }
+  pub fn requested_count(&self) -> u32 {
+    self.w0.count_ones() + self.w1.count_ones()
+  }
+}
+#[derive(Clone, Copy)]
+pub(crate) struct NackFragRec {
+  pub writer_sn: i64,
+  pub base: u32,
+  pub num_bits: u32,
+  pub w0: u32,
+  pub count: i32,
+}
+impl NackFragRec {
+  pub fn of(n: &NackFrag) -> Self {
+    let (num_bits, _len, w0, _w1) =
+      crate::structure::sequence_number::verif_harness_seqnum::ns_parts(&n.fragment_number_state);
+    NackFragRec {
+      writer_sn: i64::from(n.writer_sn),
+      base: u32::from(n.fragment_number_state.base()),
+      num_bits,
+      w0,
+      count: n.count,
+    }
+  }
+  pub fn requests(&self, off: u32) -> bool {
+    off < self.num_bits && off < 32 && self.w0 & (1u32 << (31 - off)) != 0
+  }
+}
+
+pub(crate) const MAXREC: usize = 3;
 pub(crate) struct Sent {
-  pub acknacks: Vec<AckNack>,
-  pub nackfrags: Vec<NackFrag>,
+  pub acks: [Option<AckRec>; MAXREC],
+  pub n_acks: usize,
+  pub nackfrags: [Option<NackFragRec>; MAXREC],
+  pub n_nackfrags: usize,
   pub messages: usize,
   pub info_dst_ok: bool, // every message started with INFO_DST(prefix of destination)
 }
 impl Sent {
   pub const fn new() -> Self {
     Sent {
-      acknacks: Vec::new(),
-      nackfrags: Vec::new(),
+      acks: [None; MAXREC],
+      n_acks: 0,
+      nackfrags: [None; MAXREC],
+      n_nackfrags: 0,
       messages: 0,
       info_dst_ok: true,
     }
@@ -47,8 +118,18 @@ impl Sent {
     let mut first = true;
     for s in &m.submessages {
       match &s.body {
-        SubmessageBody::Reader(ReaderSubmessage::AckNack(a, _)) => self.acknacks.push(a.clone()),
-        SubmessageBody::Reader(ReaderSubmessage::NackFrag(a, _)) => self.nackfrags.push(a.clone()),
+        SubmessageBody::Reader(ReaderSubmessage::AckNack(a, _)) => {
+          if self.n_acks < MAXREC {
+            self.acks[self.n_acks] = Some(AckRec::of(a));
+          }
+          self.n_acks += 1;
+        }
+        SubmessageBody::Reader(ReaderSubmessage::NackFrag(a, _)) => {
+          if self.n_nackfrags < MAXREC {
+            self.nackfrags[self.n_nackfrags] = Some(NackFragRec::of(a));
+          }
+          self.n_nackfrags += 1;
+        }
         SubmessageBody::Interpreter(crate::messages::submessages::submessages::InterpreterSubmessage::InfoDestination(d, _)) => {
           if let Some(g) = destination {
             if first && d.guid_prefix != g.prefix {
@@ -301,25 +382,39 @@ pub(crate) fn heartbeat(writer: u8, first: i64, last: i64, count: i32) -> Heartb
 
 // ==================================================================== harnesses
 
-/// Smoke/cost probe and first C03 obligation: a non-final HEARTBEAT is always answered and
-/// the answer is truthful for a reader that has received nothing.
-#[cfg_attr(kani, kani::proof, kani::unwind(7))]
-#[cfg_attr(
-  kani,
-  kani::stub(Reader::encode_and_send, stub_encode_and_send),
-  kani::stub(Reader::send_status_change, stub_send_status_change),
-  kani::stub(Reader::send_participant_status, stub_send_participant_status),
-  kani::stub(Reader::notify_cache_change, stub_notify_cache_change),
-  kani::stub(crate::structure::time::Timestamp::now, crate::structure::time::verif_harness_env_time::stub_now),
-  kani::stub(std::time::Instant::now, crate::structure::time::verif_harness_env_time::stub_instant_now),
-  kani::stub(crate::mio_source::make_poll_channel, crate::mio_source::verif_harness_env_mio::stub_make_poll_channel),
-  kani::stub(crate::mio_source::PollEventSender::send, crate::mio_source::verif_harness_env_mio::stub_send),
-  kani::stub(crate::mio_source::PollEventSource::drain, crate::mio_source::verif_harness_env_mio::stub_drain),
-  kani::stub(std::fmt::format, crate::verif_env::stub_format)
-)]
-#[cfg_attr(verif_replay, test)]
-fn c03_reader_hb_fresh() {
-  vk::begin("c03_reader_hb_fresh");
+/// All Tier-O harnesses on the Reader share this environment (stubs listed in evidence).
+macro_rules! reader_harness {
+  ($(#[$m:meta])* fn $name:ident($unwind:expr) $body:block) => {
+    $(#[$m])*
+    #[cfg_attr(kani, kani::proof, kani::unwind($unwind))]
+    #[cfg_attr(
+      kani,
+      kani::stub(Reader::encode_and_send, stub_encode_and_send),
+      kani::stub(Reader::send_status_change, stub_send_status_change),
+      kani::stub(Reader::send_participant_status, stub_send_participant_status),
+      kani::stub(Reader::notify_cache_change, stub_notify_cache_change),
+      kani::stub(crate::structure::time::Timestamp::now, crate::structure::time::verif_harness_env_time::stub_now),
+      kani::stub(std::time::Instant::now, crate::structure::time::verif_harness_env_time::stub_instant_now),
+      kani::stub(crate::mio_source::make_poll_channel, crate::mio_source::verif_harness_env_mio::stub_make_poll_channel),
+      kani::stub(crate::mio_source::PollEventSender::send, crate::mio_source::verif_harness_env_mio::stub_send),
+      kani::stub(crate::mio_source::PollEventSource::drain, crate::mio_source::verif_harness_env_mio::stub_drain),
+      kani::stub(std::fmt::format, crate::verif_env::stub_format),
+      kani::stub(std::vec::Vec::push, crate::verif_env::stub_vec_push),
+      kani::stub(alloc::vec::from_elem, crate::verif_env::stub_vec_from_elem)
+    )]
+    #[cfg_attr(verif_replay, test)]
+    fn $name() {
+      vk::begin(stringify!($name));
+      $body;
+      vk::end();
+    }
+  };
+}
+
+reader_harness! {
+/// First C03 obligation: a non-final HEARTBEAT is always answered and the answer is
+/// truthful for a reader that has received nothing.
+fn c03_reader_hb_fresh(7) {
   let mut rig = make_rig(reliable_qos(), false, reader_guid());
   rig.match_writer(1, &reliable_qos());
   let first = vk::range_i64(1, 4);
@@ -330,28 +425,300 @@ fn c03_reader_hb_fresh() {
   let st = rig.mr_state(1, None);
   rig.reader.handle_heartbeat_msg(&hb, fin, &st);
   let sent = rig.take_sent();
-  let acks = &sent.acknacks;
   if !fin || last >= first {
-    assert!(acks.len() == 1, "HEARTBEAT that must be answered produced no single ACKNACK");
-    let a = &acks[0];
+    assert!(sent.n_acks == 1, "HEARTBEAT that must be answered produced no single ACKNACK");
+    let a = sent.acks[0].unwrap();
     // nothing received: the lowest unknown SN is `first` (everything below is unavailable)
-    assert!(a.reader_sn_state.base() <= SequenceNumber::new(first), "ACKNACK base acknowledges too much");
-    assert!(a.reader_sn_state.base() >= SequenceNumber::new(1));
-    let mut n = 0;
-    for s in a.reader_sn_state.iter() {
-      assert!(s >= SequenceNumber::new(first) && s <= SequenceNumber::new(last), "requested SN outside advertised range");
-      n += 1;
+    assert!(a.base <= first, "ACKNACK base acknowledges too much");
+    assert!(a.base >= 1, "set base below 1 on the wire");
+    let mut off = 0;
+    while off < 6 {
+      if a.requests(off) {
+        let s = a.base + off;
+        assert!(s >= first && s <= last, "requested SN outside advertised range");
+      }
+      off += 1;
     }
     if last >= first {
-      assert!(a.reader_sn_state.iter().next() == Some(SequenceNumber::new(first)), "lowest missing SN not requested");
+      assert!(a.base == first && a.requests(0), "lowest missing SN not requested");
+      assert!(a.requested_count() as i64 == last - first + 1, "not exactly the missing SNs requested");
     }
+    assert!(a.writer_id == writer_eid(1));
   } else {
-    assert!(acks.is_empty());
+    assert!(sent.n_acks == 0);
   }
-  vk_cover!(acks.len() == 1 && last >= first + 2, "three missing");
-  vk_cover!(acks.is_empty(), "final heartbeat with nothing missing not answered");
+  assert!(sent.info_dst_ok);
+  vk_cover!(sent.n_acks == 1 && last >= first + 2, "three missing");
+  vk_cover!(sent.n_acks == 0, "final heartbeat with nothing missing not answered");
   core::mem::forget(sent);
   core::mem::forget(st);
   rig.finish();
-  vk::end();
+}
+}
+
+// ------------------------------------------------------------------ events and ghost
+pub(crate) const W: i64 = crate::verif_cfg::SN_WINDOW;
+
+#[derive(Clone, Copy)]
+pub(crate) enum Ev {
+  Data { sn: i64, byte: u8 },
+  Gap { start: i64, base: i64, bits: u32 }, // 2-bit bitmap at `base`
+  Hb { first: i64, last: i64, count: i32, fin: bool },
+}
+
+pub(crate) fn any_event() -> Ev {
+  any_event_of(vk::range_u8(0, 2))
+}
+
+pub(crate) fn any_event_of(kind: u8) -> Ev {
+  match kind {
+    0 => Ev::Data {
+      sn: vk::range_i64(1, W),
+      byte: vk::any(),
+    },
+    1 => {
+      let start = vk::range_i64(1, W);
+      let base = vk::range_i64(1, W + 1);
+      vk::assume(base >= start);
+      Ev::Gap {
+        start,
+        base,
+        bits: (vk::range_u8(0, 3) as u32) << 30,
+      }
+    }
+    _ => {
+      let first = vk::range_i64(1, W);
+      let last = vk::range_i64(0, W);
+      vk::assume(last >= first - 1);
+      Ev::Hb {
+        first,
+        last,
+        count: vk::range_u32(1, 3) as i32,
+        fin: vk::any(),
+      }
+    }
+  }
+}
+
+/// Ghost for one writer: bit i <=> SN i (i < 40) received or declared unavailable.
+/// Loop-free (bit operations only) so that the oracle adds nothing to the unwind bound.
+#[derive(Clone, Copy)]
+pub(crate) struct Ghost {
+  pub known: u64,
+  pub hb_count: i32, // highest HEARTBEAT count processed
+  pub last_ack_base: i64,
+  pub last_ack_count: i32,
+  pub any_ack: bool,
+}
+pub(crate) fn below(n: i64) -> u64 {
+  // bits 0..n-1
+  if n <= 0 {
+    0
+  } else if n >= 40 {
+    (1u64 << 40) - 1
+  } else {
+    (1u64 << n) - 1
+  }
+}
+pub(crate) fn range_mask(lo: i64, hi_incl: i64) -> u64 {
+  // bits lo..=hi
+  if hi_incl < lo {
+    0
+  } else {
+    below(hi_incl + 1) & !below(lo)
+  }
+}
+impl Ghost {
+  pub fn new() -> Self {
+    Ghost {
+      known: 1, // SN 0 and below never exist
+      hb_count: 0,
+      last_ack_base: 0,
+      last_ack_count: -1,
+      any_ack: false,
+    }
+  }
+  pub fn knows(&self, sn: i64) -> bool {
+    sn < 1 || (sn < 40 && self.known & (1u64 << sn) != 0)
+  }
+  pub fn least_unknown(&self) -> i64 {
+    (!self.known).trailing_zeros() as i64
+  }
+  /// what the event tells the reader (independent of the implementation)
+  pub fn note(&mut self, ev: Ev) {
+    match ev {
+      Ev::Data { sn, .. } => self.known |= 1u64 << sn,
+      Ev::Gap { start, base, bits } => {
+        self.known |= range_mask(start, base - 1);
+        if bits & (1 << 31) != 0 {
+          self.known |= 1u64 << base;
+        }
+        if bits & (1 << 30) != 0 {
+          self.known |= 1u64 << (base + 1);
+        }
+      }
+      Ev::Hb { first, count, .. } => {
+        if count > self.hb_count {
+          self.hb_count = count;
+          self.known |= below(first);
+        }
+      }
+    }
+  }
+}
+
+impl Rig {
+  pub fn apply(&mut self, w: u8, ev: Ev) {
+    match ev {
+      Ev::Data { sn, byte } => {
+        let (d, f) = data_msg(w, sn, &[byte, 0, 0, 0]);
+        let st = self.mr_state(w, None);
+        self.reader.handle_data_msg(d, f, &st);
+        core::mem::forget(st);
+      }
+      Ev::Gap { start, base, bits } => {
+        let g = Gap {
+          reader_id: EntityId::UNKNOWN,
+          writer_id: writer_eid(w),
+          gap_start: SequenceNumber::new(start),
+          gap_list: crate::structure::sequence_number::verif_harness_seqnum::sn_set_from_bits(base, 2, bits),
+        };
+        let st = self.mr_state(w, None);
+        self.reader.handle_gap_msg(&g, &st);
+        core::mem::forget(st);
+        core::mem::forget(g);
+      }
+      Ev::Hb { first, last, count, fin } => {
+        let hb = heartbeat(w, first, last, count);
+        let st = self.mr_state(w, None);
+        self.reader.handle_heartbeat_msg(&hb, fin, &st);
+        core::mem::forget(st);
+      }
+    }
+  }
+}
+
+/// The C03 oracle for whatever was emitted in response to one HEARTBEAT.
+pub(crate) fn check_acknack_truthful(sent: &Sent, g: &mut Ghost, first: i64, last: i64, fin: bool, fresh_count: bool) {
+  let lowest = g.least_unknown();
+  let something_missing = lowest <= last && lowest >= first;
+  if !fresh_count {
+    // a HEARTBEAT whose count was already seen is a duplicate and is not answered
+    assert!(sent.n_acks == 0, "duplicate HEARTBEAT answered");
+    return;
+  }
+  if something_missing || !fin {
+    assert!(sent.n_acks == 1, "HEARTBEAT that must be answered was not answered by exactly one ACKNACK");
+  }
+  if sent.n_acks >= 1 {
+    let a = sent.acks[0].unwrap();
+    assert!(a.base >= 1, "set base below 1 on the wire");
+    assert!(a.base <= lowest, "ACKNACK base exceeds the lowest SN neither received nor unavailable");
+    if g.any_ack {
+      assert!(a.base >= g.last_ack_base, "ACKNACK base decreased during the match");
+      assert!(a.count > g.last_ack_count, "ACKNACK count did not grow");
+    }
+    // requested SNs as a mask in SN space (windows here are < 32 wide)
+    assert!(a.num_bits <= 32 && a.words_len <= 1, "window wider than the harness can judge");
+    assert!(a.base < 32);
+    let in_bits = if a.num_bits == 0 { 0 } else { !0u32 << (32 - a.num_bits) };
+    let req: u64 = ((a.w0 & in_bits).reverse_bits() as u64) << a.base;
+    assert!(req & g.known == 0, "a sequence number listed as missing is not missing");
+    assert!(req & !range_mask(first, last) == 0, "requested SN outside the advertised range");
+    assert!(a.num_bits <= 256);
+    if something_missing {
+      assert!(a.requests(lowest - a.base), "the lowest missing SN of the advertised range is not requested");
+    }
+    g.any_ack = true;
+    g.last_ack_base = a.base;
+    g.last_ack_count = a.count;
+  }
+}
+
+/// C03: one arbitrary event of the given kind (DATA / GAP with bitmap / HEARTBEAT), then a
+/// HEARTBEAT with arbitrary first/last/count/final: the ACKNACK is truthful w.r.t. an
+/// independent ghost.  One harness per event kind (three solver queries in parallel are
+/// cheaper than one merged query).
+fn event_then_hb(kind: u8) {
+  let mut rig = make_rig(reliable_qos(), false, reader_guid());
+  rig.match_writer(1, &reliable_qos());
+  let mut g = Ghost::new();
+  let ev = any_event_of(kind);
+  rig.apply(1, ev);
+  g.note(ev);
+  let sent0 = rig.take_sent();
+  if let Ev::Hb { first, last, fin, .. } = ev {
+    // first HEARTBEAT of the match: its own answer must be truthful too
+    let mut g0 = Ghost::new();
+    g0.note(ev);
+    check_acknack_truthful(&sent0, &mut g0, first, last, fin, true);
+    g.any_ack = g0.any_ack;
+    g.last_ack_base = g0.last_ack_base;
+    g.last_ack_count = g0.last_ack_count;
+  } else {
+    assert!(sent0.n_acks == 0, "DATA/GAP answered with an ACKNACK");
+  }
+  let first = vk::range_i64(1, W);
+  let last = vk::range_i64(0, W);
+  vk::assume(last >= first - 1);
+  let fin: bool = vk::any();
+  let count = vk::range_u32(1, 4) as i32;
+  let fresh = count > g.hb_count;
+  let hb = Ev::Hb { first, last, count, fin };
+  rig.apply(1, hb);
+  g.note(hb);
+  let sent = rig.take_sent();
+  check_acknack_truthful(&sent, &mut g, first, last, fin, fresh);
+  vk_cover!(sent.n_acks == 1 && g.least_unknown() > 2, "frontier beyond 2 when answering");
+  vk_cover!(!fresh || kind != 2, "duplicate heartbeat count");
+  vk_cover!(sent.n_acks == 1 && sent.acks[0].unwrap().requested_count() >= 2, "two SNs requested");
+  rig.finish();
+}
+
+reader_harness! {
+fn c03_reader_data_then_hb(7) {
+  event_then_hb(0);
+}
+}
+reader_harness! {
+fn c03_reader_gap_then_hb(7) {
+  event_then_hb(1);
+}
+}
+reader_harness! {
+fn c03_reader_hb_then_hb(7) {
+  event_then_hb(2);
+}
+}
+
+reader_harness! {
+/// C03 from ANY valid writer-proxy state: the real Reader's answer to one HEARTBEAT with
+/// arbitrary first/last/final is truthful (base <= lowest unknown, requested SNs unknown and
+/// advertised, lowest missing requested).  The proxy state (ack frontier + out-of-order map)
+/// is symbolic, so this covers every history that leads to such a state.
+fn c03_reader_hb_anystate(7) {
+  let mut rig = make_rig(reliable_qos(), false, reader_guid());
+  rig.match_writer(1, &reliable_qos());
+  {
+    let wp = rig.reader.matched_writers.get_mut(&writer_guid(1)).unwrap();
+    crate::rtps::rtps_writer_proxy::verif_harness_wproxy::make_any_valid(wp, 0);
+  }
+  let mut g = Ghost::new();
+  {
+    let wp = rig.reader.matched_writers.get(&writer_guid(1)).unwrap();
+    g.known = crate::rtps::rtps_writer_proxy::verif_harness_wproxy::known_mask(wp, W + 2) | 1;
+  }
+  let first = vk::range_i64(1, W);
+  let last = vk::range_i64(0, W);
+  vk::assume(last >= first - 1);
+  let fin: bool = vk::any();
+  let hb = Ev::Hb { first, last, count: 1, fin };
+  rig.apply(1, hb);
+  g.note(hb);
+  let sent = rig.take_sent();
+  check_acknack_truthful(&sent, &mut g, first, last, fin, true);
+  vk_cover!(sent.n_acks == 1 && sent.acks[0].unwrap().base >= 3, "base beyond 2");
+  vk_cover!(sent.n_acks == 1 && sent.acks[0].unwrap().requested_count() >= 2 && sent.acks[0].unwrap().num_bits >= 3, "hole between two requested SNs");
+  rig.finish();
+}
 }
